@@ -126,9 +126,8 @@ Print Assumptions C09_cap_trace_rules.
 (** FASTA.  [ex = false]: every state.  [ex = true] (the adopted capacity IS the
     policy's answer): states in which a pending incomplete search sits in a full
     buffer ([FullInc]); this holds initially and is kept by every call that does
-    not end in an I/O error, fuel exhaustion or panic
-    ([C09_fa_invariants_preserved]); it cannot be dropped
-    ([C09_fa_grow_after_io_error_refuted]). *)
+    not end in fuel exhaustion or a panic
+    ([C09_fa_invariants_preserved], [C09_fa_FullInc_lost_on_fuel_exhaustion] in C09n.v). *)
 Theorem C09_fa_next_policy_directed : forall ex fuel ffuel r r' o,
   fa_next fuel ffuel r = (r', o) -> (ex = true -> FullInc r) ->
   PolicyDirected ex (cap r) (polf r) (polh r) (new_events (log r') (log r)) (cap r') (polf r') (polh r').
